@@ -60,4 +60,22 @@ def look (load : File → Nat → Cache) (throttle : Nat) (c : Cache) (f : File)
 /-- The cache is not ahead of the file, and when it carries the file's time it carries the file's lines. -/
 def Inv (c : Cache) (f : File) : Prop := c.time ≤ f.mtime ∧ (c.time = f.mtime → c.lines = f.lines)
 
+/-! ## the watch loop's window
+
+The events of one post-generation window are folded into two flags; at the end of the window the program is rebuilt
+when the Go flag is set, otherwise (text only) it keeps running and reads the new text files. -/
+
+structure Ev where
+  goUpdated : Bool
+  textUpdated : Bool
+  deriving Repr, DecidableEq
+
+/-- `goUpdated = goUpdated || ge.GoUpdated; textUpdated = textUpdated || ge.TextUpdated` over the window -/
+def window (evs : List Ev) : Bool × Bool :=
+  evs.foldl (fun acc e => (acc.1 || e.goUpdated, acc.2 || e.textUpdated)) (false, false)
+
+/-- the last event decides alone -/
+def windowLast (evs : List Ev) : Bool × Bool :=
+  evs.foldl (fun _ e => (e.goUpdated, e.textUpdated)) (false, false)
+
 end TemplVerif.Watch
